@@ -1032,12 +1032,45 @@ def partition_floor(facts, orc):
     return [t.rr]
 
 
+def last_flag(facts, orc=None):
+    """LASTFLAG/maintained: the is-last flag of the metadata chain (STREAMINFO block, then `Stream.metadata`) is an invariant
+    of the pair (stream_info.is_last, metadata[*].is_last): exactly the final block carries it.  Every body that can change
+    the metadata vector (a mutable borrow of the field, or an assignment to it) must maintain the flags in the same body;
+    an accessor that hands out `&mut Vec<MetadataBlock>` lets a caller (the parser) install blocks behind the invariant."""
+    t = R("LASTFLAG/maintained", "whoever can change Stream's metadata vector also maintains the is-last flags")
+    n = 0
+    for b in facts.body_list:
+        touches = []
+        for bi, si, st in b.iter_stmts():
+            if st["k"] != "assign":
+                continue
+            rv = st["rv"]
+            pl = rv.get("pl") if rv["k"] in ("ref", "rawptr") and rv.get("mut") else None
+            if pl is not None and ".metadata" in pl["p"] and "component::datatype::Stream" in (b.local_ty(pl["l"]) or ""):
+                touches.append((bi, si, "mutable borrow"))
+            d = st["dst"]
+            if d["p"] and d["p"][-1] == ".metadata" and "component::datatype::Stream" in (b.local_ty(d["l"]) or ""):
+                touches.append((bi, si, "assignment"))
+        if not touches:
+            continue
+        n += 1
+        keeps = any(st["k"] == "assign" and st["dst"]["p"] and st["dst"]["p"][-1] == ".is_last" for _bi, _si, st in b.iter_stmts())
+        bi, si, how = touches[0]
+        t.row(keeps, b.id, "metadata-changed-without-flag-update", "%s takes a %s of Stream's metadata vector (%s) and never stores "
+              "an is_last flag: blocks installed through it leave the STREAMINFO block (or an earlier block) marked as the last "
+              "metadata block, so the stream is written with the wrong last-metadata-block flag (RFC 9639 section 8.1) and does "
+              "not re-serialise to the bytes it was parsed from" % (b.id, how, b.loc(bi, si)),
+              {"function": b.id, "access": how}, b.loc(bi, si))
+    t.rr.require_floor(1, "bodies that change the metadata vector")
+    return [t.rr]
+
+
 def run(facts, tier, ctx):
     orc = oracle()
     out = []
     for fn in (table_block_size, table_sample_rate, table_sample_size, table_channels, table_subframe_types,
                layout_streaminfo, layout_metadata_and_stream, layout_frame_header, order_frame, layout_lpc_residual,
-               crc_generators, header_construction, predictor_order, partition_floor):
+               crc_generators, header_construction, predictor_order, partition_floor, last_flag):
         try:
             out += fn(facts, orc)
         except E.Undecided as e:
